@@ -13,7 +13,7 @@
 (* contract's name map in every state.  GrowBug = TRUE transcribes the defect "counters updated before the    *)
 (* allocation is checked" and must FAIL (negative control).  The histories are exported and replayed on the   *)
 (* real code with the allocation failures injected at the same calls.                                         *)
-EXTENDS Integers, Sequences, FiniteSets, TLC
+EXTENDS Integers, Sequences, FiniteSets, TLC, Json
 
 CONSTANTS PrimeArr,      \* ArenaHash_prime_array (bucket counts), as a sequence (index 0 of the C array is PrimeArr[1])
           INames, ITypes, IParents,   \* alphabet of the calls
@@ -151,8 +151,9 @@ Structure == /\ Len(data) = count
              /\ Len(Flat(data, 1)) = size
 IInv == LookupAgrees /\ Structure /\ R!KeysUnique /\ R!NMapExact /\ R!ParentsValid /\ R!NamesWellFormed
 
-ExportI == (MaxOpsI > 0 /\ Len(hist) = MaxOpsI) => PrintT(<<"BEH", hist>>)
+ExportStatesI == PrintT(<<"BEH", ToJson(hist)>>)
+ExportI == (MaxOpsI > 0 /\ Len(hist) = MaxOpsI) => PrintT(<<"BEH", ToJson(hist)>>)
 (* reachability control (must be violated): the table grows twice *)
 NeverGrewTwice == pidx < 4
-IView == <<data, count, grow, pidx, size, labels, nmap, last>>
+IView == <<data, count, grow, pidx, size, labels, nmap>>
 =============================================================================
